@@ -58,5 +58,5 @@ def run_shard(ctx: core.Ctx) -> core.ShardResult:
     strat = cm.histories(
         max_steps=40 if quick else 80, max_n=5 if quick else 7, exclude=excl,
     )
-    core.run_hypothesis(ctx, res, strat, check, ctx.n(150, 2500))
+    core.run_hypothesis(ctx, res, strat, check, ctx.n(350, 2500))
     return res
